@@ -381,6 +381,14 @@ theorem numbered_lines_scale_partial (k : Nat) (ls : List Str) (h : ∀ l ∈ ls
   numbered_scale k ls h
 
 open NemoVerif.NumberedLines in
+/-- Colang 1.0, indentation × k, UNCONDITIONAL part: for every factor and every line list, scaling never changes the texts, the comments, the
+    number of records or the error raised - only the indentation NUMBERS can change (and `numbered_lines_scale_partial` says how: × k, when
+    the first lines of multi-line strings are tight). -/
+theorem numbered_lines_scale_erased (k : Nat) (ls : List Str) :
+    eraseOut (numbered (ls.map (scaleLine k))) = eraseOut (numbered ls) :=
+  numbered_scale_erased k ls
+
+open NemoVerif.NumberedLines in
 /-- non-vacuity: a two-line string whose first line is tight (`  "a` / `  b"`), scaled by 3: indentation 2 ↦ 6. -/
 example : (∀ l ∈ [[' ', ' ', '"', 'a'], [' ', ' ', 'b', '"']], openerTight l = true) ∧
     (numbered ([[' ', ' ', '"', 'a'], [' ', ' ', 'b', '"']].map (scaleLine 3))).toOption.map (List.map Rec.indentation) = some [6] := by
